@@ -6,7 +6,7 @@ import NavisModel.Model.Resample
 This file re-states the same code with every operator / constant / ordering decision that
 `translator/gen_sampling.py` reads off the current navis source as a *parameter* (`WalkRule`, `ResRule`,
 `AttachRule`), adds the glue the first pass left to the Python harness (`preserve_nodes=None` vs list, the soma
-ids appended to the fix points, float factors, the `shape[0] <= 1` early return, `max_tn_id`, the three
+ids appended to the fix points, float factors (rounded down before the walk), the `shape[0] <= 1` early return, `max_tn_id`, the three
 re-attachment blocks, mapped numeric and categorical columns) and is proved in `Proofs/SamplingLemmas.lean`
 to coincide with the hand-written models for the rule values the translator produces today (`walkRule0`,
 `resRule0`, `attachRule0`).  Import-free, total, computable.
@@ -55,8 +55,15 @@ def pySlice {α} (l : List α) (lo hi : Option Int) : List α :=
 
 /-! ## downsampling as written -/
 
+/-- How a finite factor is rounded before the walk (`if not np.isinf(f): f = int(np.floor(f))`). -/
+inductive FactorRound where
+  | asGiven | floor | ceil
+deriving Repr, DecidableEq
+
 /-- Everything `_downsample_treeneuron` decides by an operator, a constant or a def-before-use order. -/
 structure WalkRule where
+  /-- rounding of a finite factor before the walk (`inf` is never rounded) -/
+  factorRound : FactorRound
   /-- `if x.nodes.shape[0] <smallCmp> smallK: return` -/
   smallCmp : Cmp
   smallK : Int
@@ -87,7 +94,7 @@ deriving Repr, DecidableEq
 
 /-- The rule the model of the first pass hard-wires (and the translator extracts from the pinned source). -/
 def walkRule0 : WalkRule :=
-  { smallCmp := .le, smallK := 1, sentinelKey := -1, sentinelValue := -1, fixCmp := .ne, fixType := .slab, presUnion := true,
+  { factorRound := .floor, smallCmp := .le, smallK := 1, sentinelKey := -1, sentinelValue := -1, fixCmp := .ne, fixType := .slab, presUnion := true,
     stopSetHasSoma := true, startsHaveSoma := true, contCmp := .ge, contK := 0, rootRecord := -1,
     loopInit := 0, loopCmp := .lt, loopStep := 1, stopMem := true, stopRootCmp := .lt, stopRootK := 0 }
 
@@ -121,6 +128,13 @@ def walkG (r : WalkRule) (t : Table) (stopB : Int → Bool) (q : Option Rat) : N
     if (recG r t stopB q this).2 then [(this, (recG r t stopB q this).1)]
     else (this, (recG r t stopB q this).1) :: walkG r t stopB q fuel (recG r t stopB q this).1
 
+/-- The factor the walk compares its counter with. -/
+def effFactor (r : WalkRule) (q : Option Rat) : Option Rat :=
+  match r.factorRound with
+  | .asGiven => q
+  | .floor => q.map fun f => (f.floor : Rat)
+  | .ceil => q.map fun f => (f.ceil : Rat)
+
 /-- `selection`: the rows whose id becomes a fix point before the soma is looked at. -/
 def selG (r : WalkRule) (pres : Option (List Int)) (n : Node) : Bool :=
   (match r.fixCmp with
@@ -141,12 +155,15 @@ def downsampleG (r : WalkRule) (t : Table) (q : Option Rat) (pres : Option (List
   let fix1 := appendSoma fix0 soma
   let stopSet := if r.stopSetHasSoma then fix1 else fix0
   let starts := if r.startsHaveSoma then fix1 else fix0
-  let pairs := starts.flatMap fun e => walkG r t (fun i => stopSet.contains i) q (t.length + 1) e
+  let pairs := starts.flatMap fun e => walkG r t (fun i => stopSet.contains i) (effFactor r q) (t.length + 1) e
   classify ((t.filter fun n => pairs.any fun e => e.1 == n.id).map fun n =>
     { n with parent := lookupD pairs.reverse n.id n.parent })
 
-/-- The integer factor the walk effectively uses: `i < q` for integers `i` is `i < ⌈q⌉`. -/
+/-- `i < q` for an integer counter `i` is `i < ⌈q⌉` (what an unrounded float factor amounts to). -/
 def ceilNat (q : Rat) : Nat := q.ceil.toNat
+
+/-- The integer factor the walk uses: a finite factor is rounded down first. -/
+def floorNat (q : Rat) : Nat := q.floor.toNat
 
 /-- `downsample_neuron`: `ValueError` (= `none`) unless the factor passes the guard. -/
 def downsampleNeuronG (guardCmp : Cmp) (guardK : Int) (r : WalkRule) (t : Table) (q : Option Rat)
